@@ -109,6 +109,16 @@ def run(tier):
         b = v.bubble(func=func)
         suite.identity('tensor.Bubble.grad[%d]' % k, arr(b.grad(x).eval()), diff_arr(b.eval(), x), extra=(x, y),
                        functions=['tensor.Bubble.grad'], what='chain rule for a polynomial bubble on one wire')
+    # bubbles inside a composite: the product rule must include the bubble's term
+    hh = tensor.Box('h', Dim(2), Dim(2), [1, 2, 3, 4])
+    gg = tensor.Box('g', Dim(2), Dim(2), [x ** 2, 1, y, x])
+    sq = lambda t: t ** 2
+    for name, dd in (('h >> g.bubble', hh >> gg.bubble(func=sq)), ('g.bubble >> h', gg.bubble(func=sq) >> hh),
+                     ('g >> g.bubble', gg >> gg.bubble(func=sq))):
+        with suite.guard('tensor.Diagram.grad.with_bubble[%s]' % name, ['tensor.Diagram.grad']):
+            suite.identity('tensor.Diagram.grad.with_bubble[%s]' % name, arr(total(dd.grad(x))), diff_arr(dd.eval(), x),
+                           extra=(x, y), functions=['tensor.Diagram.grad', 'tensor.Bubble.grad', 'cat.Bubble.__init__'],
+                           what='the gradient of a composite containing a bubble that depends on the symbol')
     d = v >> tensor.Box('m', Dim(2), Dim(2), [x, 1, y, x ** 2]) >> v.dagger()
     suite.identity('tensor.Diagram.grad.product_rule', arr(d.grad(x).eval()), diff_arr(d.eval(), x), extra=(x, y),
                    functions=['tensor.Diagram.grad'], what='product rule over layers, symbol occurring in every box')
